@@ -75,6 +75,10 @@ var c12Classes = []c12Class{
 	{"minus-on-string", `"a" - "b"`, true},
 	{"zero-divisor", `a7 / a0`, true},
 	{"zero-modulus", `a7 % a0`, true},
+	{"zero-divisor-uint", `u8 / a0`, true},
+	{"zero-modulus-uint", `u8 % a0`, true},
+	{"zero-modulus-float-left", `f25 % a0`, true},
+	{"zero-divisor-uint-both", `u8 / u0`, true},
 	{"call-target-not-function", `a7()`, true},
 	{"call-target-not-function-prefix", `a7: 1`, true},
 	{"pipe-target-not-function", `1 | a7`, true},
@@ -129,7 +133,7 @@ func c12Mk(log *[]string) rj.Inputs {
 	var np *c12S
 	return rj.Inputs{Vars: map[string]interface{}{
 		"cT": true, "rS": []string{"e1", "e2"},
-		"a7": 7, "a0": 0, "neg": -1, "nilv": nil, "nilp": np, "str": "abc",
+		"a7": 7, "a0": 0, "u8": uint8(200), "u0": uint(0), "f25": 2.5, "neg": -1, "nilv": nil, "nilp": np, "str": "abc",
 		"s": c12S{Name: "n"}, "sl": []int{1, 2, 3}, "m": map[string]int{"k": 1}, "ch": strChan("x"),
 		"f2":      func(a, b int) int { return a + b },
 		"fInt":    func(a int) int { return a },
